@@ -918,3 +918,240 @@ func canonGeneric(g *ssa.Function) *ssa.Function {
 	}
 	return o
 }
+
+// ---------- helper-aware site search (rules must survive "extract helper" / "split function") ----------
+
+// deepSite is a call site found in fn or in a same-package helper reachable from fn; Chain lists the call sites that lead
+// from fn down to the function containing Site (empty when Site is in fn or one of its closures).
+type deepSite struct {
+	Site  Site
+	Chain []Site
+}
+
+// outer returns the instruction inside the anchor function that stands for this site (the outermost call of the chain).
+func (d deepSite) outer() ssa.Instruction {
+	if len(d.Chain) > 0 {
+		return d.Chain[0].Instr
+	}
+	return d.Site.Instr
+}
+
+func (p *Prog) deepSites(fn *ssa.Function, match func(Site) bool, depth int) []deepSite {
+	var out []deepSite
+	seen := map[*ssa.Function]bool{}
+	var walk func(f *ssa.Function, chain []Site, d int)
+	walk = func(f *ssa.Function, chain []Site, d int) {
+		if seen[f] {
+			return
+		}
+		seen[f] = true // recursion guard only: a helper called twice yields one chain per call
+		defer delete(seen, f)
+		for _, g := range withAnons(f) {
+			for _, s := range sitesOf(g) {
+				if match(s) {
+					out = append(out, deepSite{Site: s, Chain: append([]Site{}, chain...)})
+				}
+				if d < depth && s.Callee != nil && len(s.Callee.Blocks) > 0 && canonGeneric(s.Callee).Pkg != nil && rootOf(fn).Pkg != nil &&
+					canonGeneric(s.Callee).Pkg == canonGeneric(rootOf(fn)).Pkg && !match(s) {
+					walk(s.Callee, append(append([]Site{}, chain...), s), d+1)
+				}
+			}
+		}
+	}
+	walk(fn, nil, 0)
+	return out
+}
+
+// mustHoldDeep: conditions that hold at the site, in the anchor function's terms: the caller-side condition of every call of
+// the chain, conjoined with the callee-side conditions with parameters replaced by the argument terms.
+func (p *Prog) mustHoldDeep(ds deepSite) dnf {
+	d := dnf{conj{}}
+	// innermost first: condition at Site within its function, then substitute upwards
+	cur := p.mustHoldAt(ds.Site.Instr)
+	for i := len(ds.Chain) - 1; i >= 0; i-- {
+		call := ds.Chain[i]
+		if call.Callee != nil {
+			cur = substParams(cur, call.Callee, call.Args())
+		}
+		cur = dnfAnd(p.mustHoldAt(call.Instr), cur)
+	}
+	return dnfAnd(d, cur)
+}
+
+func nameMatcher(names ...string) func(Site) bool {
+	return func(s Site) bool {
+		n := s.CalleeName()
+		for _, name := range names {
+			if n == name || strings.HasSuffix(n, "."+name) || strings.HasSuffix(n, ")."+name) || strings.HasSuffix(n, "/"+name) {
+				return true
+			}
+		}
+		return false
+	}
+}
+
+// termInl renders v like term, but sees through a same-package forwarding
+// helper: a component of a multi-result helper call, or a single-result helper
+// whose only return is itself a call, is rendered as the helper's returned
+// term with the call's arguments substituted for its parameters.
+func termInl(v ssa.Value) string {
+	ts := termInlAll(v, true)
+	if len(ts) == 1 {
+		return ts[0]
+	}
+	return term(v)
+}
+
+// termInlAll: one term per return of the same-package helper whose result v is
+// (arguments substituted for parameters); {term(v)} if v is not such a call.
+// strict: a single-result helper is inlined only if it has one return and
+// that return is itself a call (pure forwarding).
+func termInlAll(v ssa.Value, strict bool) []string {
+	idx := 0
+	var call *ssa.Call
+	switch x := v.(type) {
+	case *ssa.Extract:
+		c, ok := x.Tuple.(*ssa.Call)
+		if !ok {
+			return []string{term(v)}
+		}
+		call, idx = c, x.Index
+	case *ssa.Call:
+		call, idx = x, -1
+	default:
+		return []string{term(v)}
+	}
+	g := call.Call.StaticCallee()
+	if g != nil {
+		g = canonGeneric(g)
+	}
+	if g == nil || len(g.Blocks) == 0 || call.Parent() == nil || pkgRelOf(g) == "" || pkgRelOf(g) != pkgRelOf(rootOf(call.Parent())) {
+		return []string{term(v)}
+	}
+	rets := returnsOf(g)
+	if len(rets) == 0 || (strict && len(rets) != 1) {
+		return []string{term(v)}
+	}
+	var out []string
+	for _, r := range rets {
+		var rv ssa.Value
+		if idx < 0 {
+			if len(r.Results) != 1 {
+				return []string{term(v)}
+			}
+			rv = r.Results[0]
+			if _, ok := rv.(*ssa.Call); !ok && strict {
+				return []string{term(v)}
+			}
+		} else {
+			if idx >= len(r.Results) {
+				return []string{term(v)}
+			}
+			rv = r.Results[idx]
+		}
+		t := termP(rv)
+		for i := len(call.Call.Args) - 1; i >= 0; i-- {
+			t = strings.ReplaceAll(t, fmt.Sprintf("$%d", i), term(call.Call.Args[i]))
+		}
+		out = append(out, t)
+	}
+	return out
+}
+
+// deepInstr: an instruction of fn or of a same-package callee (chain = the calls leading to it).
+type deepInstr struct {
+	In    ssa.Instruction
+	Chain []Site
+}
+
+func (p *Prog) deepInstrs(fn *ssa.Function, depth int) []deepInstr {
+	var out []deepInstr
+	onStack := map[*ssa.Function]bool{}
+	var walk func(f *ssa.Function, chain []Site, d int)
+	walk = func(f *ssa.Function, chain []Site, d int) {
+		if onStack[f] {
+			return
+		}
+		onStack[f] = true
+		defer delete(onStack, f)
+		for _, g := range withAnons(f) {
+			allInstrsOne(g, func(in ssa.Instruction) {
+				out = append(out, deepInstr{In: in, Chain: chain})
+			})
+			for _, s := range sitesOf(g) {
+				if d < depth && s.Callee != nil && len(s.Callee.Blocks) > 0 && pkgRelOf(s.Callee) != "" && pkgRelOf(s.Callee) == pkgRelOf(fn) {
+					walk(s.Callee, append(append([]Site{}, chain...), s), d+1)
+				}
+			}
+		}
+	}
+	walk(fn, nil, 0)
+	return out
+}
+
+func allInstrsOne(fn *ssa.Function, f func(ssa.Instruction)) {
+	for _, b := range fn.Blocks {
+		for _, in := range b.Instrs {
+			f(in)
+		}
+	}
+}
+
+// mustHoldChain: like mustHoldDeep for an arbitrary instruction.
+func (p *Prog) mustHoldChain(in ssa.Instruction, chain []Site) dnf {
+	cur := p.mustHoldAt(in)
+	// an instruction inside a closure: conjoin nothing for the closure boundary (conditions of the enclosing function at
+	// the closure's creation are not known to hold when it runs)
+	for i := len(chain) - 1; i >= 0; i-- {
+		call := chain[i]
+		if call.Callee != nil {
+			cur = substParams(cur, call.Callee, call.Args())
+		}
+		cur = dnfAnd(p.mustHoldAt(call.Instr), cur)
+	}
+	return cur
+}
+
+// closureTrueCond: the condition under which the boolean closure created by mc returns true, with its free variables
+// replaced by the terms of the values bound at creation.
+func (p *Prog) closureTrueCond(mc *ssa.MakeClosure) dnf {
+	fn, ok := mc.Fn.(*ssa.Function)
+	if !ok || !isBoolResult(fn) {
+		return nil
+	}
+	var d dnf
+	for _, ret := range returnsOf(fn) {
+		b := &bform{p: p, visited: map[ssa.Value]bool{}}
+		rd := b.dnf(ret.Results[0], true, 0)
+		d = dnfOr(d, dnfAnd(b.pathCond(ret.Block, nil, fn, 0), rd))
+	}
+	repl := map[string]string{}
+	for i, fv := range fn.FreeVars {
+		if i >= len(mc.Bindings) {
+			break
+		}
+		t := strings.TrimPrefix(term(mc.Bindings[i]), "&")
+		if strings.HasPrefix(t, "{") && strings.HasSuffix(t, "}") {
+			t = t[1 : len(t)-1]
+		}
+		repl[baseFreeVarName(fv)] = t
+	}
+	var out dnf
+	for _, cj := range d {
+		n := conj{}
+		for a := range cj {
+			// a captured variable is read through its cell: "*name" is the bound variable's value
+			for name, r := range repl {
+				a = strings.ReplaceAll(a, "*"+name, r)
+			}
+			n[identRe.ReplaceAllStringFunc(a, func(id string) string {
+				if r, ok := repl[id]; ok {
+					return r
+				}
+				return id
+			})] = true
+		}
+		out = append(out, n)
+	}
+	return out
+}
